@@ -985,6 +985,22 @@ class _Normalizer:
 
             def _comp(self_, n, make):
                 n = self_.generic_visit(n)
+                if len(n.generators) == 1 and n.generators[0].ifs and not n.generators[0].is_async and isinstance(n, ast.ListComp):
+                    # a filtered comprehension over a constant table: every row contributes its element or nothing
+                    g = n.generators[0]
+                    items = const_items(g.iter)
+                    if items is not None:
+                        parts = []
+                        for it in items:
+                            b = bind(g.target, it)
+                            if b is None:
+                                return n
+                            cond = subst(g.ifs[0], b) if len(g.ifs) == 1 else ast.BoolOp(op=ast.And(), values=[subst(c_, b) for c_ in g.ifs])
+                            parts.append(ast.Starred(value=ast.IfExp(test=self_.visit(cond), body=ast.List(elts=[self_.visit(subst(n.elt, b))], ctx=ast.Load()),
+                                                                      orelse=ast.List(elts=[], ctx=ast.Load())), ctx=ast.Load()))
+                        me.stats['unrolled'] = me.stats.get('unrolled', 0) + 1
+                        return ast.copy_location(ast.List(elts=parts, ctx=ast.Load()), n)
+                    return n
                 if len(n.generators) != 1 or n.generators[0].ifs or n.generators[0].is_async:
                     return n
                 g = n.generators[0]
@@ -3243,7 +3259,9 @@ class _Normalizer:
     def _inlinable(self, fi) -> bool:
         node = fi.node
         a = node.args
-        if a.vararg or a.kwarg or a.kwonlyargs or a.posonlyargs:
+        if a.kwarg or a.kwonlyargs or a.posonlyargs:
+            return False
+        if a.vararg and any(isinstance(n, ast.Name) and n.id == a.vararg.arg and isinstance(n.ctx, (ast.Store, ast.Del)) for n in ast.walk(node)):
             return False
         for d in node.decorator_list:
             if ast.unparse(d) not in ('staticmethod', 'classmethod') and not self.repo.cached_value_factory(fi):
